@@ -15,7 +15,7 @@ from .contract import Case, Contract, LoopSpec, Registry, Shape
 from .ops import Unsupported, coerce, contains, ite, truthy, values_equal
 from .solve import Obligation, discharge, quick_sat
 from .source import FuncInfo, Source, loop_nodes
-from .types import BOOL, INT, REAL, STR, Atom, Enum, MapT, ObjT, Opt, OpaqueT, Record, SeqT, SetT, TupleT, Ty
+from .types import BOOL, DATETIME, INT, REAL, STR, Atom, Enum, MapT, ObjT, Opt, OpaqueT, Record, SeqT, SetT, TupleT, Ty
 from .values import (BRK, CONT, NONE, OK, RAISE, RET, BoundMeth, BuiltinVal, ExcVal, FuncVal, GenVal, LambdaVal, ListVal,
                      ModVal, Native, NoneVal, ObjRef, State, TupleVal, Val, bind, boolval, fresh_name, mk_fresh)
 
@@ -373,8 +373,19 @@ class Engine:
         return bind(self.eval_many([node.left, node.right], st), k)
 
     def binop(self, st, op, a, b):
+        if isinstance(a, Val) and isinstance(a.ty, Opt):
+            a = self.unwrap_opt(st, a, "operand of arithmetic")
+        if isinstance(b, Val) and isinstance(b.ty, Opt):
+            b = self.unwrap_opt(st, b, "operand of arithmetic")
         if isinstance(a, Val) and isinstance(b, Val):
             ta, tb = a.ty, b.ty
+            if DATETIME in (ta, tb):
+                if ta == DATETIME and tb == DATETIME and isinstance(op, ast.Sub):
+                    return [(OK, st, Val(a.term - b.term, REAL))]
+                if ta == DATETIME and tb in (INT, REAL) and isinstance(op, (ast.Add, ast.Sub)):
+                    y = coerce(b, REAL).term
+                    return [(OK, st, Val(a.term + y if isinstance(op, ast.Add) else a.term - y, DATETIME))]
+                raise Unsupported("datetime arithmetic")
             if ta in (INT, REAL) and tb in (INT, REAL):
                 real = REAL in (ta, tb) or isinstance(op, ast.Div)
                 x = coerce(a, REAL).term if real else a.term
@@ -392,12 +403,9 @@ class Engine:
                 if isinstance(op, ast.Mod):
                     self.implicit(st, y != 0, "ZeroDivisionError", "modulo")
                     if real:
-                        # Python float % for a positive divisor: r in [0, y) with x = k*y + r (real semantics assumed)
-                        kq = z3.Int(fresh_name("modk"))
-                        r = z3.Real(fresh_name("modr"))
-                        st.assume(z3.Implies(y > 0, z3.And(x == z3.ToReal(kq) * y + r, r >= 0, r < y)))
-                        st.assume(z3.Implies(y < 0, z3.And(x == z3.ToReal(kq) * y + r, r <= 0, r > y)))
-                        return [(OK, st, Val(r, REAL))]
+                        # Python float % under real semantics (assumption, stated in evidence)
+                        st.assume(ops.fmod_facts(x, y))
+                        return [(OK, st, Val(ops.fmod(x, y), REAL))]
                     return [(OK, st, Val(x % y, INT))]
                 if isinstance(op, ast.FloorDiv) and not real:
                     self.implicit(st, y != 0, "ZeroDivisionError", "floordiv")
@@ -449,6 +457,12 @@ class Engine:
             return contains(b, a)
         if isinstance(op, ast.NotIn):
             return z3.Not(contains(b, a))
+        if isinstance(a, Val) and isinstance(a.ty, Opt):
+            a = self.unwrap_opt(st, a, "operand of ordering comparison")
+        if isinstance(b, Val) and isinstance(b.ty, Opt):
+            b = self.unwrap_opt(st, b, "operand of ordering comparison")
+        if isinstance(a, Val) and isinstance(b, Val) and a.ty == DATETIME and b.ty == DATETIME:
+            a, b = Val(a.term, REAL), Val(b.term, REAL)
         if isinstance(a, Val) and isinstance(b, Val) and a.ty in (INT, REAL) and b.ty in (INT, REAL):
             real = REAL in (a.ty, b.ty)
             x = coerce(a, REAL).term if real else a.term
